@@ -3,6 +3,8 @@ package main
 import (
 	"context"
 	"fmt"
+	"strings"
+	"sync"
 	"math/rand"
 	"sort"
 	"time"
@@ -19,7 +21,7 @@ func init() {
 	fw.Register(&fw.Property{
 		ID:    "C13",
 		Level: "exploration",
-		Rule: "ENUMERATED size classes x log shapes: shape {empty, chain, chain of only big entries (snapshot spans several 256 KiB UnixFS chunks), fork (2 concurrent writers), 3 writers, containing replicated entries, replication in progress (remote fetches held by the gate so the replicator queue is non-empty at save time)} x largest payload {0, 1, 1 KiB, 27/36/37/47/48/49 KiB (entry JSON around 65535 bytes after one or two base64 layers), 60 KiB, ~64 KiB, 70 KiB, 200 KiB, 300 KiB; jittered by +-300 bytes in the thorough tier} x store type, with kubo's real UnixFS chunker/reader. SaveSnapshot is called on the live store; when it returns nil a FRESH instance on the same directory calls LoadFromSnapshot (not Load). " +
+		Rule: "ENUMERATED size classes x log shapes: shape {empty, chain, chain of only big entries (snapshot spans several 256 KiB UnixFS chunks), fork (2 concurrent writers), 3 writers, containing replicated entries, replication in progress (remote fetches held by the gate so the replicator queue is non-empty at save time), replication in progress whose missing entries stay unreachable afterwards (partition), local writes and merges landing while SaveSnapshot runs} x largest payload {0, 1, 1 KiB, 27/36/37/47/48/49 KiB (entry JSON around 65535 bytes after one or two base64 layers), 60 KiB, ~64 KiB, 70 KiB, 200 KiB, 300 KiB; jittered by +-300 bytes in the thorough tier} x store type, with kubo's real UnixFS chunker/reader. SaveSnapshot is called on the live store; when it returns nil a FRESH instance on the same directory calls LoadFromSnapshot (not Load). " +
 			"distinct = (shape, size class, store type, entries); non-trivial = log non-empty or shape is 'empty' (the empty log is a named case), and SaveSnapshot returned (error or nil) without dying",
 		Assumptions: []string{"the snapshot is reloaded by the same peer (its blocks are local)", "entries still being replicated at save time may or may not be in the reloaded state; everything in the log at save time must be"},
 		Cases:       c13Cases,
@@ -31,7 +33,7 @@ func init() {
 	})
 }
 
-var c13Shapes = []string{"empty", "chain", "chain-all-big", "fork", "three-writers", "replicated", "in-progress"}
+var c13Shapes = []string{"empty", "chain", "chain-all-big", "fork", "three-writers", "replicated", "in-progress", "in-progress-then-partition", "writes-during-save"}
 var c13Sizes = []int{0, 1, 1024, 27 * 1024, 36 * 1024, 37 * 1024, 47 * 1024, 48 * 1024, 49 * 1024, 60 * 1024, 65535 - 300, 65535, 70 * 1024, 200 * 1024, 300 * 1024}
 
 func c13Cases(tier string, seed int64) []fw.Case {
@@ -47,6 +49,9 @@ func c13Cases(tier string, seed int64) []fw.Case {
 			for zi, size := range c13Sizes {
 				if shape == "empty" && zi > 0 {
 					continue
+				}
+				if shape == "writes-during-save" && zi >= 8 {
+					continue // the payload size is irrelevant here: 8 cases with small payloads and a long log
 				}
 				if shape == "chain-all-big" && (size < 1024 || size > 61000) {
 					continue // every entry is big: the snapshot spans several UnixFS chunks
@@ -90,7 +95,7 @@ func c13Run(c fw.Case) fw.Verdict {
 		return fw.Verdict{Status: fw.Inconclusive, What: err.Error()}
 	}
 	var others []*sim.Peer
-	nOthers := map[string]int{"empty": 0, "chain": 0, "chain-all-big": 0, "fork": 1, "three-writers": 2, "replicated": 1, "in-progress": 1}[shape]
+	nOthers := map[string]int{"in-progress-then-partition": 1, "writes-during-save": 1, "empty": 0, "chain": 0, "chain-all-big": 0, "fork": 1, "three-writers": 2, "replicated": 1, "in-progress": 1}[shape]
 	for i := 0; i < nOthers; i++ {
 		o, err := e.W.AddPeer(sim.PeerOpts{})
 		if err != nil {
@@ -156,7 +161,13 @@ func c13Run(c fw.Case) fw.Verdict {
 		e.W.Flush()
 		_ = write(sP, n, 10)
 		e.W.Flush()
-	case "in-progress":
+	case "writes-during-save":
+		for k := 0; k < 150+n; k++ { // a long log: serialising it takes long enough for writes to land meanwhile
+			if err := write(sP, k, rng.Intn(40)); err != nil {
+				return fw.Verdict{Status: fw.Inconclusive, What: "write: " + err.Error()}
+			}
+		}
+	case "in-progress", "in-progress-then-partition":
 		for k := 0; k < 2; k++ {
 			_ = write(sP, k, 10)
 		}
@@ -168,9 +179,16 @@ func c13Run(c fw.Case) fw.Verdict {
 		}
 		e.W.Settle()
 		e.W.DropAll()
+		nfetch := 0
 		e.W.SetGate(func(ctx context.Context, to, from *sim.Peer, _ cid.Cid) error {
 			if to != P {
 				return nil
+			}
+			nfetch++
+			if shape == "in-progress-then-partition" && nfetch == 1 {
+				// the fetcher's look-ahead for the head's predecessor fails, so that the predecessor is
+				// queued as an item of its own whose block is NOT local when the snapshot is saved
+				return fmt.Errorf("sim: fetch failed")
 			}
 			ch := make(chan struct{})
 			held = append(held, ch)
@@ -190,7 +208,51 @@ func c13Run(c fw.Case) fw.Verdict {
 
 	ctx, cancel := context.WithTimeout(bg, 60*time.Second)
 	defer cancel()
+	stopW := make(chan struct{})
+	var wwg sync.WaitGroup
+	if shape == "writes-during-save" {
+		// local writes and merges of remote entries keep landing while the snapshot is taken
+		e.W.Instant = true
+		wwg.Add(2)
+		go func() {
+			defer wwg.Done()
+			for k := 0; ; k++ {
+				select {
+				case <-stopW:
+					return
+				default:
+				}
+				_ = write(sP, 1000+k, 8)
+			}
+		}()
+		go func() {
+			defer wwg.Done()
+			for k := 0; ; k++ {
+				select {
+				case <-stopW:
+					return
+				default:
+				}
+				_ = write(db.Stores[others[0].Idx], 2000+k, 8)
+				time.Sleep(100 * time.Microsecond)
+			}
+		}()
+		time.Sleep(time.Duration(rng.Intn(1500)) * time.Microsecond)
+	}
 	_, saveErr := basestore.SaveSnapshot(ctx, sP)
+	close(stopW)
+	wwg.Wait()
+	if shape == "writes-during-save" {
+		e.W.Instant = false
+		e.W.Flush()
+	}
+	atSaveEnd := TakeSnap(typ, sP, P.Idx)
+	if shape == "in-progress-then-partition" {
+		// the entries still being fetched stay unreachable: the peer that holds them is gone for good
+		for _, o := range others {
+			e.W.Cut(P, o)
+		}
+	}
 	v.Count("save_calls", 1)
 	// release held fetches, let replication finish
 	e.W.SetGate(nil)
@@ -205,7 +267,11 @@ func c13Run(c fw.Case) fw.Verdict {
 		v.Sample = map[string]interface{}{"shape": shape, "largest_payload": size, "type": typ, "entries": len(before.Order), "save": "refused: " + saveErr.Error()}
 		return v
 	}
-	e.W.Flush()
+	if shape == "in-progress-then-partition" {
+		e.W.WaitIdle(sim.IdleOpts{Watchdog: 300 * time.Millisecond}) // the blocked fetches stay blocked: do not wait for them
+	} else {
+		e.W.Flush()
+	}
 	// fresh instance on the same directory, LoadFromSnapshot
 	P.Stop()
 	e.W.Settle()
@@ -216,7 +282,11 @@ func c13Run(c fw.Case) fw.Verdict {
 		return fw.Verdict{Status: fw.Inconclusive, What: "reopen: " + err.Error()}
 	}
 	s2 := db.Stores[P.Idx]
-	lctx, lcancel := context.WithTimeout(bg, 60*time.Second)
+	loadBudget := 60 * time.Second
+	if shape == "in-progress-then-partition" {
+		loadBudget = 8 * time.Second // everything the snapshot needs is local; only the unreachable in-progress entries are not
+	}
+	lctx, lcancel := context.WithTimeout(bg, loadBudget)
 	defer lcancel()
 	if err := s2.LoadFromSnapshot(lctx); err != nil {
 		return fw.Verdict{Status: fw.Violated, Key: "saved-snapshot-not-loadable/" + sizeClass(size), NonTrivial: true, Sig: v.Sig,
@@ -239,7 +309,19 @@ func c13Run(c fw.Case) fw.Verdict {
 				What: fmt.Sprintf("reloaded snapshot lacks entry %s: %d entries at save time, %d after reload (%s, largest payload %d)", short(h), len(before.Order), len(after.Order), shape, size)}
 		}
 	}
-	if shape != "in-progress" {
+	if shape == "writes-during-save" {
+		// the snapshot is of some moment during the save: nothing it lists may be unknown at the end of the save
+		end := map[string]bool{}
+		for _, h := range atSaveEnd.Order {
+			end[h] = true
+		}
+		for _, h := range after.Order {
+			if !end[h] {
+				return fw.Verdict{Status: fw.Violated, Key: "snapshot-unknown-entry", NonTrivial: true, Sig: v.Sig, What: "reloaded snapshot lists entry " + short(h) + " that the store did not hold when the save ended"}
+			}
+		}
+		v.Count("snapshots_taken_under_concurrent_writes", 1)
+	} else if !strings.HasPrefix(shape, "in-progress") {
 		if !eqStrings(before.Order, after.Order) {
 			return fw.Verdict{Status: fw.Violated, Key: "snapshot-different-log", NonTrivial: true, Sig: v.Sig, What: fmt.Sprintf("log after reload [%s] differs from log at save time [%s]", shorts(after.Order), shorts(before.Order))}
 		}
